@@ -1030,7 +1030,7 @@ where
         // Choose the appropiate cell to propagate based on the type of page.
         // We need to copy  because we also need to insert it on the new leaves (this is a Bplustree, so the data must reside on the leaf pages.)
         let mut propagated_cell = if was_leaf {
-            right_cells.first().unwrap().clone()
+            Self::as_separator(right_cells.first().unwrap().clone())
         } else {
             left_cells.last().unwrap().clone()
         };
@@ -1162,6 +1162,20 @@ where
     /// The description of this algorithm can be found on original SQLite docs: https://sqlite.org/btreemodule.html
     /// The main idea is that you have to take as many pages as specified, recompute a balanced distribution, and redistribute the cells accordingly.
     /// Afterwards, propagate the pointers as required.
+    /// A separator copied from a leaf cell only routes searches: it must not share the overflow
+    /// chain of the cell it was copied from (two owners of one chain: freeing either leaves the
+    /// other pointing at released or reused pages). Keep the in-page part, which holds the keys.
+    fn as_separator(cell: OwnedCell) -> OwnedCell {
+        if !cell.metadata().is_overflow() {
+            return cell;
+        }
+        let data = cell.effective_data();
+        let inline = &data[..data.len() - std::mem::size_of::<PageId>()];
+        let mut separator = OwnedCell::new(inline);
+        separator.set_left_child(cell.metadata().left_child());
+        separator
+    }
+
     fn balance(&mut self, page_id: PageId) -> BtreeResult<()> {
         let is_root = self.is_root(page_id);
         // Read the page size from the pager.
@@ -1409,7 +1423,7 @@ where
             // Note that the last node's  next is the right frontier, which gets propagated afterwards.
             if i < siblings.len() - 1 && is_leaf {
                 // Simply create a copy of the next node's front cell, make it point towards ourselves and propagate.
-                let mut divider = cells.front().unwrap().clone();
+                let mut divider = Self::as_separator(cells.front().unwrap().clone());
                 current_iter_page.set_right_child(divider.left_child());
                 divider.set_left_child(Some(current_iter_id));
                 let parent_page = self.get_page_mut(parent_page_id)?;
@@ -1443,7 +1457,7 @@ where
             let last_sibling_id = last_sibling.entry();
             let last_sibling_slot = last_sibling.slot();
 
-            let mut divider_cell = page.owned_cell(0);
+            let mut divider_cell = Self::as_separator(page.owned_cell(0));
             divider_cell.set_left_child(Some(last_sibling_id));
             let parent_page = self.get_page_mut(parent_page_id)?;
             parent_page.insert(last_sibling_slot, divider_cell)?;
@@ -1604,12 +1618,14 @@ where
         // In order to unfuck the parent, we replace the entry that pointed to left with the right node's first key
         let divider = match direction {
             BorrowDirection::RightToLeft => {
-                let mut separator = self.get_page_mut(source_page_id)?.owned_cell(0);
+                let mut separator =
+                    Self::as_separator(self.get_page_mut(source_page_id)?.owned_cell(0));
                 separator.set_left_child(Some(target_page_id));
                 separator
             }
             BorrowDirection::LeftToRight => {
-                let mut separator = self.get_page_mut(target_page_id)?.owned_cell(0);
+                let mut separator =
+                    Self::as_separator(self.get_page_mut(target_page_id)?.owned_cell(0));
                 separator.set_left_child(Some(source_page_id));
                 separator
             }
